@@ -6,8 +6,8 @@ export GOFLAGS=-mod=mod GOPROXY=off GOSUMDB=off GOTOOLCHAIN=local
 mkdir -p "$VERIF/bin" "$VERIF/.work" "$VERIF/evidence" "$VERIF/replays"
 (cd "$VERIF/tools/vbuild" && go1.26 build -o "$VERIF/bin/vbuild" .) || exit 1
 rc=0
-for d in "$VERIF"/checks/*/; do
-  ID=$(basename "$d")
+for ID in $(cat "$VERIF/tools/claimed.txt"); do
+  d="$VERIF/checks/$ID"
   [ -f "$d/main/main.go" ] || continue
   VERIF_BUILD_ONLY=1 "$VERIF/run" "$ID" quick >/dev/null 2>"$VERIF/.work/setup-$ID.log" || { echo "setup: build of $ID failed"; cat "$VERIF/.work/setup-$ID.log"; rc=1; }
 done
